@@ -2,7 +2,7 @@
 import ast
 
 from ..core.db import AnalysisError, norm_stmt, walk_no_nested
-from ..core.interp import Const, Tup, Unknown
+from ..core.interp import Const, Tup, Unknown, Value
 from .common import norm_interp, returns, as_rat, show, Sym, Arr, Rat, _rat
 from .purity import input_mutations
 
@@ -26,8 +26,9 @@ def batch_rules(run, db):
     # the batched/scalar pairs are the two-armed tests `<layer angle array>.ndim > 1`; the array is the local the Snell angles are stored into
     tests = {id(t_) for b_, t_ in find(f.node, 'V_a.ndim > 1') if b_['V_a'] not in f.params}
     ifs = [n for n in walk_no_nested(f.node) if isinstance(n, ast.If) and id(n.test) in tests and n.orelse]
-    if len(ifs) < 3:
-        raise AnalysisError('multilayer_stack_rt: expected three batched/scalar branch pairs, found %d' % len(ifs))
+    if not ifs:
+        # one code path for stacks of any rank: there are no twin branches that could drift apart
+        run.ok('C17.batch', f.qual, 'no separate batched / scalar branches (one code path for every rank)')
 
     class Norm(ast.NodeTransformer):
         def visit_Subscript(self, node):
@@ -45,16 +46,6 @@ def batch_rules(run, db):
         tb = '; '.join(ast.unparse(st) for st in n.orelse)
         run.check(a == b, 'C17.batch', f.qual, 'branch pair at `%s`' % norm_stmt(n.body[0])[:50], 'the batched branch is the scalar branch applied along the batch axis (same calls, arguments and flags)',
                   'batched and scalar branches differ beyond the batch index: batched `%s` vs scalar `%s` -- batched stacks are evaluated differently from the same stacks one at a time' % (ta, tb), f.loc(n))
-    # the angle of incidence is converted to radians exactly once and every consumer is told so
-    conv = [n for n in walk_no_nested(f.node) if isinstance(n, ast.Assign) and ast.unparse(n.targets[0]) == 'aoi' and 'radians' in ast.unparse(n.value)]
-    calls = [n for n in walk_no_nested(f.node) if isinstance(n, ast.Call) and ast.unparse(n.func) == 'snell_aor']
-    okd = len(conv) == 1 and len(calls) >= 2 and all(any(k.arg == 'degrees' and isinstance(k.value, ast.Constant) and k.value.value is False for k in c.keywords) for c in calls)
-    # Snell's invariant n sin(theta): the index handed over with an angle must be the index of the medium that angle is measured in
-    pairs = {(ast.unparse(c.args[0]), ast.unparse(c.args[2])) for c in calls if len(c.args) >= 3}
-    run.check(pairs == {('ambient_index', 'aoi')}, 'C17.batch', f.qual, 'snell pairing', 'every layer angle is obtained from the ambient pair (ambient_index, aoi): n0 sin(aoi) = n_i sin(theta_i)',
-              'snell_aor is called with the (index, angle) pairs %s: the angle of incidence in the ambient medium is combined with the index of another medium, so n sin(theta) is not conserved through the stack'
-              % sorted(pairs), f.loc())
-    run.check(okd, 'C17.batch', f.qual, 'angle units', 'aoi is converted to radians once and every snell_aor call is told degrees=False', 'an snell_aor call re-converts the already-radian angle of incidence (degrees flag missing)', f.loc())
 
 
 def check(run, db, tier):
@@ -175,22 +166,94 @@ def check(run, db, tier):
                               'ttot(zero-thickness stack, %s) == fresnel_t%s' % (pol, pol),
                               'zero-thickness stack gives t = %s but fresnel_t%s = %s' % (t.key(), pol, tref.key()), fm.loc())
 
-    # dispatch table in multilayer_stack_rt
+    # dispatch in multilayer_stack_rt, by interpretation with a concrete polarisation: which of the p / s matrix routines are reached
+    from ..core.interp import Interp, Domain, _Break, _Continue
+    from .common import capture_calls
+
+    class Ang(Value):
+        """the caller's angle of incidence, in `unit`"""
+        def __init__(self, unit):
+            self.unit = unit
+
+    class Amb(Value):
+        """the caller's ambient index"""
+
+    class CallDomain(Domain):
+        """everything unknown except the angle of incidence (with its unit) and the ambient index; loops over unknown ranges run
+        their body once (what is called there, and with what, is what matters)."""
+        def call_ext(self, dotted, args, kwargs, node):
+            last = dotted.rsplit('.', 1)[-1]
+            a0 = args[0] if args else None
+            if isinstance(a0, Ang) and dotted.startswith('numpy.'):
+                if last in ('radians', 'deg2rad') and a0.unit == 'deg':
+                    return Ang('rad')
+                if last in ('degrees', 'rad2deg') and a0.unit == 'rad':
+                    return Ang('deg')
+                if last in ('asarray', 'array', 'float64', 'asanyarray'):
+                    return a0
+            return None
+
+        def loop(self, node, frame):
+            if isinstance(node, ast.For):
+                for leaf in ast.walk(node.target):
+                    if isinstance(leaf, ast.Name):
+                        frame.env[leaf.id] = Unknown('loop variable')
+            # twice: the second pass sees what the first one left behind (loop-carried locals)
+            for _ in range(2):
+                try:
+                    self.interp.exec_block(node.body, frame)
+                except _Continue:
+                    continue
+                except _Break:
+                    break
+            return True
+
+        def comprehension(self, node, frame):
+            from ..core.interp import Frame
+            fr = Frame(frame.fi, frame.module, {}, parent=frame)
+            for g in node.generators:
+                for leaf in ast.walk(g.target):
+                    if isinstance(leaf, ast.Name):
+                        fr.env[leaf.id] = Unknown('comprehension variable')
+            elt = node.elt if not isinstance(node, ast.DictComp) else node.value
+            return Tup([self.interp.ev(elt, fr)], 'list')
     fs = db.func(M + 'multilayer_stack_rt')
-    found = 0
-    for n in walk_no_nested(fs.node):
-        if isinstance(n, ast.If) and isinstance(n.test, ast.Compare) and len(n.test.comparators) == 1 \
-                and isinstance(n.test.comparators[0], ast.Constant) and n.test.comparators[0].value in ('p', 's') \
-                and 'polarization' in ast.unparse(n.test.left):
-            pol = n.test.comparators[0].value
-            for st in n.body:
-                if isinstance(st, ast.Assign) and isinstance(st.value, ast.Name):
-                    found += 1
-                    nm = st.value.id
-                    run.check(nm.endswith('_' + pol) and db.has_func(M + nm), 'C17.dispatch', fs.qual, norm_stmt(st),
-                              "branch '%s' uses %s" % (pol, nm), "branch '%s' selects %s" % (pol, nm), fs.loc(st))
-    if found < 4:
-        raise AnalysisError('C17.dispatch: polarisation dispatch table not found in multilayer_stack_rt')
+    four = {M + 'characteristic_matrix_p', M + 'characteristic_matrix_s', M + 'multilayer_matrix_p', M + 'multilayer_matrix_s'}
+    for pol in ('p', 's'):
+        domc = CallDomain()
+        itc = Interp(db, domc)
+        paths, calls = capture_calls(itc, domc, fs, lambda: {'stack': Unknown('stack'), 'wavelength': Unknown('wvl'), 'polarization': Const(pol), 'aoi': Ang('deg'), 'ambient_index': Amb()},
+                                     four | {M + 'snell_aor', M + 'rtot', M + 'ttot'}, lambda fi_, b_: Unknown(fi_.name))
+        # Snell's invariant n sin(theta): every layer angle comes from the ambient pair (ambient index, angle of incidence), and the
+        # callee is told the unit the angle is in at that point
+        sn = [c_ for c_ in calls if c_[0].name == 'snell_aor']
+        if not sn:
+            raise AnalysisError('C17.batch: multilayer_stack_rt never reaches snell_aor')
+        seen = set()
+        for fi_, b_, node_, _c in sn:
+            sig = (id(node_), type(b_.get('theta')).__name__, getattr(b_.get('theta'), 'unit', None), type(b_.get('n0')).__name__, repr(b_.get('degrees')))
+            if sig in seen:
+                continue
+            seen.add(sig)
+            th, n0_, dg = b_.get('theta'), b_.get('n0'), b_.get('degrees', Const(True))
+            if not isinstance(th, Ang) and not isinstance(n0_, Amb):
+                # neither member of the ambient pair: some other way of propagating the invariant (layer to layer, say), not followed here
+                raise AnalysisError('C17.batch: snell_aor at line %d is handed neither the angle of incidence nor the ambient index' % node_.lineno)
+            run.check(isinstance(th, Ang) and isinstance(n0_, Amb), 'C17.batch', fs.qual, 'snell pairing:%s:%s' % (pol, norm_stmt(node_)[:40]),
+                      'the layer angle is obtained from the ambient pair (ambient_index, aoi): n0 sin(aoi) = n_i sin(theta_i)',
+                      'snell_aor is called with the (index, angle) pair (%s, %s): the angle of incidence in the ambient medium is combined with the index of another '
+                      'medium, so n sin(theta) is not conserved through the stack' % tuple(ast.unparse(a_) for a_ in (node_.args + [k.value for k in node_.keywords])[:3:2]), fs.loc(node_))
+            if isinstance(th, Ang):
+                if not isinstance(dg, Const):
+                    raise AnalysisError('C17.batch: degrees flag of snell_aor at line %d is not a constant' % node_.lineno)
+                run.check(bool(dg.v) == (th.unit == 'deg'), 'C17.batch', fs.qual, 'angle units:%s:%s' % (pol, norm_stmt(node_)[:40]),
+                          'snell_aor is told degrees=%s for an angle in %s' % (bool(dg.v), th.unit),
+                          'snell_aor is told degrees=%s but the angle of incidence is in %s at this point: it is converted %s' % (bool(dg.v), th.unit, 'twice' if th.unit == 'rad' else 'never'), fs.loc(node_))
+        used = sorted({c_[0].name for c_ in calls if c_[0].qual in four})
+        if not used:
+            raise AnalysisError("C17.dispatch: no characteristic / multilayer matrix routine is reached for polarization '%s'" % pol)
+        run.check(used == ['characteristic_matrix_' + pol, 'multilayer_matrix_' + pol], 'C17.dispatch', fs.qual, "polarization '%s'" % pol,
+                  "polarization '%s' uses characteristic_matrix_%s and multilayer_matrix_%s" % (pol, pol, pol), "polarization '%s' reaches %s" % (pol, used), fs.loc())
     calls = {ast.unparse(n.func): n for n in walk_no_nested(fs.node) if isinstance(n, ast.Call)}
     for nm in ('rtot', 'ttot'):
         run.check(nm in calls, 'C17.dispatch', fs.qual, nm, '%s applied to the multilayer matrix' % nm,
